@@ -463,6 +463,38 @@ func solveAllSkipping(obls []*Obligation, scripts []string, valueNames [][]strin
 		}()
 	}
 	wg.Wait()
+	// last phase: what is still undecided after a timeout is tried once more strictly alone (one obligation at a time, the
+	// whole machine for its portfolio, four times the budget). Only when few are left: many undecided obligations are not
+	// a load problem.
+	var left []int
+	for i := range obls {
+		r := results[i]
+		if r == nil || obls[i].Cover || r.R.Status == "unsat" || r.R.Status == "sat" || r.R.Status == "not-run" {
+			continue
+		}
+		if strings.Contains(strings.Join(r.R.Tried, " "), ":timeout:") {
+			left = append(left, i)
+		}
+	}
+	if len(left) > 0 && len(left) <= 6 {
+		for _, i := range left {
+			r := results[i]
+			var tried []string
+			var ms int64
+			if rv := tryVariants(obls[i], scripts[i], dir, 4*timeoutMs, &tried, &ms); rv != nil {
+				rv.Ms = r.R.Ms + ms
+				rv.Tried = append(r.R.Tried, tried...)
+				results[i] = &oblResult{O: obls[i], R: rv}
+				continue
+			}
+			r2 := Solve(scripts[i], dir, obls[i].Name+".alone", 4*timeoutMs, thorough, valueNames[i], false)
+			if r2.Status == "unsat" {
+				r2.Ms += r.R.Ms + ms
+				r2.Tried = append(append(r.R.Tried, tried...), r2.Tried...)
+				results[i] = &oblResult{O: obls[i], R: r2}
+			}
+		}
+	}
 	return results
 }
 
